@@ -1,0 +1,32 @@
+//go:build verif
+// +build verif
+
+package executor
+
+import (
+	"com.tuntun.rangers/node/src/middleware/types"
+	"com.tuntun.rangers/node/src/storage/account"
+)
+
+// Verification hook (property C20, build tag verif only, add-only): a probe executor. A harness registers it
+// under an otherwise unused transaction type and places probe transactions between the real transactions of a
+// block; the real VMExecutor loop then calls f with the running block's AccountDB at that point, which lets the
+// harness read the registry as the NEXT transaction of the same block will see it (dirty writes not yet
+// flushed into the storage trie). The probe writes nothing itself.
+type verifC20Probe struct {
+	f func(tx *types.Transaction, header *types.BlockHeader, accountdb *account.AccountDB)
+}
+
+func (p *verifC20Probe) BeforeExecute(tx *types.Transaction, header *types.BlockHeader, accountDB *account.AccountDB, context map[string]interface{}) (bool, bool, string) {
+	return true, true, ""
+}
+
+func (p *verifC20Probe) Execute(tx *types.Transaction, header *types.BlockHeader, accountdb *account.AccountDB, context map[string]interface{}) (bool, string) {
+	p.f(tx, header, accountdb)
+	return true, ""
+}
+
+// VerifC20RegisterProbe installs the probe under transaction type typ (after InitExecutors).
+func VerifC20RegisterProbe(typ int32, f func(tx *types.Transaction, header *types.BlockHeader, accountdb *account.AccountDB)) {
+	txExecutorsImpl.executors[typ] = &verifC20Probe{f: f}
+}
